@@ -10,7 +10,7 @@ META = {
     "technique": "Coq proofs by structural induction over an operator/measurement AST model of qp.equal + vm_compute correspondence against the real qp.equal in both argument orders, plus direct oracles (reflexivity, symmetry, hash, matrices) on the implementation",
     "design_ref": "DESIGN.md §3 C04",
     "text": "Props/C04.v proves, for the Gallina transcription of ops/functions/equal.py (plain operators, Controlled, Pow, Adjoint, SProd, Exp, Sum/Prod/ChangeOpBasis via their _sort methods and the pauli_rep shortcut, measurement processes) and for ALL ASTs: reflexivity (tolerances >= 0), the exact asymmetry window of numpy.allclose, symmetry whenever every pair of numeric fields is equal or farther apart than atol + rtol*max (hence also under the 2x bound), equality of identical data, and that equality at rtol=atol=0 forces the same structure up to the documented normalisations. The model is evaluated inside Coq on ASTs EXTRACTED FROM THE REAL OBJECTS of generated pairs (reconstructions, copies, single-field mutations incl. parameters placed inside, in the asymmetric window of, and outside the tolerance) and compared with the real qp.equal(a,b) and qp.equal(b,a); reflexivity, symmetry outside the window, identical data => equal and equal hash(), and equal => equal matrices (<= 3 wires, small tolerances) are additionally checked directly on the implementation.",
-    "note": "Trusted: Coq kernel; the hand transcription EqualModel.v is tied to /repo only by the correspondence run. Oracles recorded from the real objects, not modelled: class identity (name code; subclass-compatible pairs of different classes are not generated), hyperparameter equality (interned canonical text, includes array shapes and real/pure-imaginary kind of numbers; general complex numbers are not extractable and skipped), pauli_rep equality classes, the Sum/Prod sort keys (str(op), str(wire), set.pop()) and operand wires. Not modelled: interface/trainability checks (all data is numpy/python), tracers/abstract operators, MeasurementValue / mid-circuit measurements, Conditional, ParametrizedEvolution, SubroutineOp, QSVT/Select/PrepSelPrep/HilbertSchmidt branches, QuantumScript, PauliWord/PauliSentence arguments, the arithmetic_depth pre-checks (implied by base equality). hash() is not modelled (checked directly: identical data => equal hash). 'equal => same linear map up to tolerance' is proved only in the exact case as 'same structure'; for non-zero tolerance it is a numerical oracle with bound 1e-3 at rtol<=1e-5 (Prod nested under Pow/Exp/Controlled excluded, matrices of Prod/Sum are composed by the driver itself so that the known Prod.matrix ordering defect C03 does not leak in).",
+    "note": "Trusted: Coq kernel; the hand transcription EqualModel.v is tied to /repo only by the correspondence run. Oracles recorded from the real objects, not modelled: class identity (name code; subclass-compatible pairs of different classes are not generated), hyperparameter equality (interned canonical text, includes array shapes and real/pure-imaginary kind of numbers; general complex numbers are not extractable and skipped), pauli_rep equality classes, the Sum/Prod sort keys (str(op), str(wire), set.pop()) and operand wires. Not modelled: interface/trainability checks (all data is numpy/python), tracers/abstract operators, MeasurementValue / mid-circuit measurements, Conditional, ParametrizedEvolution, SubroutineOp, QSVT/Select/PrepSelPrep/HilbertSchmidt branches, QuantumScript, PauliWord/PauliSentence arguments, the arithmetic_depth pre-checks (implied by base equality). hash() is not modelled (checked directly: identical data => equal hash). same_data_equal is stated for Leibniz-identical ASTs (identical extracted data), i.e. it is reflexivity applied to reconstructions/copies; that reconstructions and copies really expose identical data is checked per run (same-ast oracle). 'equal => same linear map up to tolerance' is proved only in the exact case as 'same structure'; for non-zero tolerance it is a numerical oracle with bound 1e-3 at rtol<=1e-5 (Prod nested under Pow/Exp/Controlled excluded, matrices of Prod/Sum are composed by the driver itself so that the known Prod.matrix ordering defect C03 does not leak in).",
     "assumptions": ["all numeric data are Python/numpy numbers that are real or purely imaginary",
                     "float evaluation of |a-b| <= atol + rtol*|b| agrees with exact rational evaluation because generated values keep a relative margin > 1e-9 from the boundary (or sit on it with dyadic data)",
                     "control wires of one operator are distinct (dict(zip(..)) has no collisions)"],
@@ -528,7 +528,7 @@ CORPUS = [
 def run(ctx):
     ctx.coq_props()
     rng = ctx.rng
-    n = 520 if ctx.tier == "quick" else 6000
+    n = 400 if ctx.tier == "quick" else 6000
     cases = [{"a": a, "b": b, "rtol": rt, "atol": at, "tag": "corpus"} for a, b, rt, at in CORPUS]
     while len(cases) < n:
         pool = rng.sample(LABELS, rng.choice([2, 3, 3, 3, 4, 5]))
